@@ -5,9 +5,13 @@ package main
 
 import (
 	"errors"
+	"encoding/json"
 	"fmt"
 	"math"
+	"sort"
 	"strings"
+
+	"0chain.net/smartcontract/minersc"
 
 	cstate "0chain.net/chaincore/chain/state"
 	"github.com/0chain/common/core/statecache"
@@ -17,8 +21,16 @@ import (
 	"verifharness/vh"
 )
 
+type fork struct {
+	Name string `json:"n"`
+	R    int64  `json:"r"`
+}
+
+const owner = "1746b06bb09f55ee01b33b5e2e055d6cc7a900cb57c0a3a5eaabb8a0e7745802"
+
 type op struct {
-	K    string `json:"k"` // record|corrupt|delete|break|query|getround
+	K     string `json:"k"` // record|addforks|corrupt|delete|break|query|getround
+	Forks []fork `json:"forks,omitempty"` // addforks: one minersc add_hardfork transaction with this request map
 	Name string `json:"n,omitempty"`
 	R    int64  `json:"r,omitempty"`  // fork round (record) or block round (query)
 	BE   int64  `json:"be,omitempty"` // error token returned by the before callback (0 = nil)
@@ -87,6 +99,7 @@ func run(h hist) result {
 	var mpt util.MerklePatriciaTrieI = sc.NewMPT()
 	ref := map[string]refEntry{}
 	broken := false
+	ownerSet := false
 	for _, o := range h.Ops {
 		switch o.K {
 		case "record", "corrupt", "delete":
@@ -115,6 +128,40 @@ func run(h hist) result {
 				panic(fmt.Sprintf("%s %q: %v", o.K, o.Name, err))
 			}
 			res.kinds[o.K]++
+		case "addforks":
+			res.outs = append(res.outs, "AcDone")
+			if broken {
+				panic("generator: no writes after break")
+			}
+			txn := sc.Txn("verif add_hardfork", owner, minersc.ADDRESS, 0, 1)
+			ctx := sc.NewCtx(mpt, 1, txn)
+			if !ownerSet {
+				gn := &minersc.GlobalNode{OwnerId: owner}
+				if _, err := ctx.InsertTrieNode(minersc.GlobalNodeKey, gn); err != nil {
+					panic(err)
+				}
+				ownerSet = true
+			}
+			fields := map[string]string{}
+			for _, f := range o.Forks {
+				fields[f.Name] = fmt.Sprint(f.R)
+			}
+			input, _ := json.Marshal(map[string]interface{}{"fields": fields})
+			if _, err := minersc.NewMinerSmartContract().Execute(txn, "add_hardfork", input, ctx); err != nil {
+				panic(fmt.Sprintf("add_hardfork: %v", err))
+			}
+			res.kinds["addforks"]++
+			res.kinds[fmt.Sprintf("addforks-%d-names", len(o.Forks))]++
+			for _, f := range o.Forks {
+				ref[f.Name] = refEntry{round: f.R}
+			}
+			// every submitted name must report its own submitted round
+			for _, f := range o.Forks {
+				r, err := cstate.GetRoundByName(sc.NewCtx(mpt, 2, nil), f.Name)
+				if err != nil || r != f.R {
+					fail("add-hardfork-recorded-round-differs-from-submitted-round")
+				}
+			}
 		case "break":
 			res.outs = append(res.outs, "AcDone")
 			// make sure the root is a real node first, then point the trie at a node the DB does not have
@@ -216,6 +263,14 @@ func coqCase(h hist, res result) string {
 		switch o.K {
 		case "record":
 			ops[i] = fmt.Sprintf("AcRecord %s %s", vh.Str(o.Name), vh.Z(o.R))
+		case "addforks":
+			fs := append([]fork{}, o.Forks...)
+			sort.Slice(fs, func(a, b int) bool { return fs[a].Name < fs[b].Name })
+			var ps []string
+			for _, f := range fs {
+				ps = append(ps, vh.Pair(vh.Str(f.Name), vh.Z(f.R)))
+			}
+			ops[i] = "AcRecordMany " + vh.List(ps)
 		case "corrupt":
 			ops[i] = "AcCorrupt " + vh.Str(o.Name)
 		case "delete":
@@ -269,6 +324,31 @@ func gen(r *vh.Rand, malformed bool) hist {
 					h.Ops = append(h.Ops, op{K: "query", Name: name, R: rr + d, BE: int64(r.Intn(3)), AE: int64(r.Intn(3)) * 10})
 				}
 			}
+		case x < 7 && !malformed && r.Chance(1, 2):
+			// one add_hardfork transaction with 1..8 forks, distinct names, distinct rounds; then each fork is
+			// asked for its round and walked across r-1, r, r+1
+			k := r.Range(1, 8)
+			var fs []fork
+			used := map[int64]bool{}
+			for _, ni := range r.Perm(len(names))[:k] {
+				rr := pickRound(r)
+				for used[rr] {
+					rr = int64(r.Intn(100000))
+				}
+				used[rr] = true
+				fs = append(fs, fork{names[ni], rr})
+				recorded[names[ni]] = rr
+			}
+			h.Ops = append(h.Ops, op{K: "addforks", Forks: fs})
+			for _, f := range fs {
+				h.Ops = append(h.Ops, op{K: "getround", Name: f.Name})
+				for d := int64(-1); d <= 1; d++ {
+					if (d > 0 && f.R > math.MaxInt64-d) || (d < 0 && f.R < math.MinInt64-d) {
+						continue
+					}
+					h.Ops = append(h.Ops, op{K: "query", Name: f.Name, R: f.R + d, BE: 1, AE: 20})
+				}
+			}
 		case x < 6 && malformed:
 			h.Ops = append(h.Ops, op{K: "corrupt", Name: name})
 			delete(recorded, name)
@@ -302,7 +382,7 @@ func gen(r *vh.Rand, malformed bool) hist {
 func key(h hist) string {
 	var b strings.Builder
 	for _, o := range h.Ops {
-		fmt.Fprintf(&b, "|%s,%s,%d,%d,%d", o.K, o.Name, o.R, o.BE, o.AE)
+		fmt.Fprintf(&b, "|%s,%s,%d,%d,%d,%v", o.K, o.Name, o.R, o.BE, o.AE, o.Forks)
 	}
 	return b.String()
 }
@@ -311,7 +391,7 @@ func main() {
 	o := vh.ParseFlags()
 	sc.Init()
 	rep := vh.NewReport("activator", "C43", o)
-	rep.Rule = "histories over 10 fork names (incl. empty, prefix-related and ':'-containing names): records with rounds 0..300 and edge values (0, +-1, 2^53+-1, 2^62, MaxInt64-1, MaxInt64, negative, MinInt64), " +
+	rep.Rule = "histories over 10 fork names; forks are recorded by direct InsertTrieNode and by real minersc add_hardfork transactions (MinerSmartContract.Execute as owner) carrying 1..8 forks with distinct names and rounds, each then asked for GetRoundByName and walked over r-1, r, r+1; (incl. empty, prefix-related and ':'-containing names): records with rounds 0..300 and edge values (0, +-1, 2^53+-1, 2^62, MaxInt64-1, MaxInt64, negative, MinInt64), " +
 		"re-records, deletes, block-round walks r-2..r+2 across each fork round, queries near the recorded round and at edge rounds, GetRoundByName; malformed stream adds non-HardFork values under the fork key and a trie with an unresolvable root; " +
 		"exhaustive: fork round x block round over a 9-value grid, recorded/absent; non-trivial = a recorded fork was queried both before and at/after its round and an unrecorded fork was queried; distinct by op list"
 	cf := &vh.CasesFile{Imports: []string{"Base.Corr", "Model.Activator", "Corr.Activator"}, CaseType: "ac_case", CheckFn: "ac_check", Shard: 100}
@@ -340,7 +420,7 @@ func main() {
 				var h2 hist
 				brk := false
 				for _, i := range keep {
-					if brk && (h.Ops[i].K == "record" || h.Ops[i].K == "corrupt" || h.Ops[i].K == "delete") {
+					if brk && (h.Ops[i].K == "record" || h.Ops[i].K == "addforks" || h.Ops[i].K == "corrupt" || h.Ops[i].K == "delete") {
 						return false
 					}
 					if h.Ops[i].K == "break" {
@@ -379,6 +459,16 @@ func main() {
 	}
 	for i := 0; i < o.N(100, 1000); i++ {
 		handle(gen(rnd, true), true)
+	}
+	// fixed: the eight-fork request of a typical network upgrade, recorded with one transaction
+	{
+		var h hist
+		fs := []fork{{"apollo", 100}, {"ares", 250}, {"artemis", 400}, {"athena", 1000}, {"demeter", 5000}, {"electra", 20000}, {"hercules", 75000}, {"hermes", 300000}}
+		h.Ops = append(h.Ops, op{K: "addforks", Forks: fs})
+		for _, f := range fs {
+			h.Ops = append(h.Ops, op{K: "getround", Name: f.Name}, op{K: "query", Name: f.Name, R: f.R - 1, BE: 1, AE: 20}, op{K: "query", Name: f.Name, R: f.R, BE: 1, AE: 20})
+		}
+		handle(h, true)
 	}
 	grid := []int64{math.MinInt64, -1, 0, 1, 100, 101, math.MaxInt64 - 1, math.MaxInt64, 1 << 53}
 	nExh := 0
